@@ -238,7 +238,12 @@ func c18Run(sc qScenario) (vs []ev.V) {
 		if sc.Bounce == "ok" && (!rep.Committed || rep.Aborted) {
 			vs = append(vs, ev.Vf("report:not-committed", "%s: committed=%v aborted=%v", where, rep.Committed, rep.Aborted))
 		}
-		if (sc.Bounce == "body" || sc.Bounce == "commit") && !rep.Aborted {
+		// (a delivery whose Commit failed has ended: the pipeline does not abort the target whose Commit failed either, and
+		// a second end returns the permits of an outbound target twice - C11, queue-report)
+		if sc.Bounce == "commit" && rep.Aborted {
+			vs = append(vs, ev.Vf("report:delivery-ended-twice", "%s: the bounce pipeline failed at commit and the report delivery was aborted after that", where))
+		}
+		if sc.Bounce == "body" && !rep.Aborted {
 			vs = append(vs, ev.Vf("report:failed-delivery-not-aborted", "%s: bounce pipeline failed at %s but the report delivery was not aborted", where, sc.Bounce))
 		}
 		p := c18Parse(rep.Raw)
@@ -322,7 +327,7 @@ func c18Run(sc qScenario) (vs []ev.V) {
 					}
 					if a != ann.Code/100 {
 						vs = append(vs, ev.Vf("report:status-class", "%s: Status %s for %s, the last error was %s", where, g.Status, g.FinalRcpt, le))
-					} else if ann.Ench[0] == ann.Code/100 && (b != ann.Ench[1] || c != ann.Ench[2]) {
+					} else if ann.Ench[0] == ann.Code/100 && ann.Ench[1] >= 0 && ann.Ench[2] >= 0 && (b != ann.Ench[1] || c != ann.Ench[2]) { // (5.-1.0 is no status code, it cannot be reported)
 						// "with their last status codes": the enhanced status code the target gave for the recipient
 						vs = append(vs, ev.Vf("report:status-code-not-the-last-one", "%s: Status %s for %s, the last error was %s", where, g.Status, g.FinalRcpt, le))
 					}
